@@ -729,7 +729,7 @@ func c15SetUp(r *Run) {
 			continue
 		}
 		optsAlloc = a
-		r.ExpectFields(fn, k+"validationOpts", CallArgs(c)[1], map[string]string{
+		r.ExpectFieldsVia(fn, k+"validationOpts", CallArgs(c)[1], map[string]string{ // (through whole-struct copies and constructors: rules_t8c18.go)
 			"trustedRoots":    "x509util.NewPEMCertPool()",
 			"rejectExpired":   "*Config.RejectExpired || *GetRejectExpired(*)",
 			"rejectUnexpired": "*Config.RejectUnexpired || *GetRejectUnexpired(*)",
@@ -739,8 +739,13 @@ func c15SetUp(r *Run) {
 		})
 		// the window bounds: the fields that ValidateChain compares as start / limit (see c18WindowFields)
 		if fStart, fLimit := c18WindowFields(r); a != nil {
-			r.ExpectStores(fn, k+"validationOpts.notAfterStart", "&("+r.D.allocName(a)+"."+fStart+")", "*Validated.NotAfterStart", 1)
-			r.ExpectStores(fn, k+"validationOpts.notAfterLimit", "&("+r.D.allocName(a)+"."+fLimit+")", "*Validated.NotAfterLimit", 1)
+			c15Bound := func(key, field, want string) { // the configured pointer itself or an exact private copy of its instant (C18.R4, rules_t8c18.go)
+				if c18ExpectBound(r, fn, key, a, field, want) == 0 {
+					r.Fail(key, r.FnPos(fn), fmt.Sprintf("expected >= 1 stores to &(%s.%s) in %s (or in the function that builds the struct), found 0", r.D.allocName(a), field, FuncName(fn)))
+				}
+			}
+			c15Bound(k+"validationOpts.notAfterStart", fStart, "*Validated.NotAfterStart")
+			c15Bound(k+"validationOpts.notAfterLimit", fLimit, "*Validated.NotAfterLimit")
 		} else {
 			r.Fail(k+"validationOpts.notAfterStart", r.FnPos(fn), "undecided: the validation options are not built in a local allocation")
 		}
